@@ -174,6 +174,9 @@ def run(prop, tier, seed, replay, jobs):
     req_hook = getattr(mod, 'NEEDS_HOOK', False)
     if req_hook and not replay and M['instr'].get('hook_events', 0) == 0:
         reasons.append('repository hook produced no em_iteration event')
+    for name in getattr(mod, 'REACH_REQUIRED', {}) if not replay else []:
+        if not M['instr'].get('reach_named', {}).get(name):
+            reasons.append(f'named branch never reached by the workload: {name}')
     post = getattr(mod, 'post_verdict', None)
     if post and not replay:
         reasons.extend(post(M, tier) or [])
